@@ -439,6 +439,14 @@ def standard_check(mod, tier, seed):
         rep.cov["discharged"] = 0
         broken.append(("theorem", "proof obligation no longer checks: " + first_error(log)))
     rep.cov["axioms_reported"] = info["axioms"]
+    # thorough tier: independent re-check of the compiled theorems and everything they depend on
+    if ok and tier == "thorough" and os.environ.get("VERIF_COQCHK", "1") != "0":
+        modname = "Verif." + os.path.basename(mod.PROPS)[:-2]
+        rc, out = sh(["coqchk", "-silent", "-o"] + coq_q_flags() + [modname], cwd=COQ, timeout=7200)
+        summary = out[out.find("CONTEXT SUMMARY"):] if "CONTEXT SUMMARY" in out else out[-600:]
+        rep.cov["coqchk"] = {"rc": rc, "summary": " ".join(summary.split())[:600]}
+        if rc != 0 or "* Axioms: <none>" not in summary:
+            broken.append(("coqchk", "independent checker does not accept the development or reports axioms: " + " ".join(summary.split())[:300]))
 
     # 3. harness + model
     impl_ok = model_ok = True
